@@ -554,6 +554,30 @@ pub fn run_reader_dev(dev: &Dev, ops: &[Value], ctx: &ReadCtx, t: &mut TraceOut)
                     t.ev(json!({"ev":"r_blob","tag":tag,"off":limbs_u64(off),"len":limbs_u64(len),"res":res}));
                 }
             }
+            "simple_count" => {
+                let pcs = rd.pointclouds();
+                let i = op["pc"].as_u64().unwrap_or(0) as usize;
+                if i >= pcs.len() {
+                    continue;
+                }
+                let r = catch(|| -> std::result::Result<u64, u64> {
+                    let it = rd.pointcloud_simple(&pcs[i]).map_err(|_| 0u64)?;
+                    let mut n = 0u64;
+                    for p in it {
+                        match p {
+                            Ok(_) => n += 1,
+                            Err(_) => return Err(n),
+                        }
+                    }
+                    Ok(n)
+                });
+                let res = match r {
+                    Ok(Ok(n)) => ok(limbs_u64(n)),
+                    Ok(Err(n)) => json!({"err":1,"got":limbs_u64(n)}),
+                    Err(m) => json!({"panic":m}),
+                };
+                t.ev(json!({"ev":"r_simple_count","pc":i + 1,"res":res}));
+            }
             "xml" => {
                 let x = rd.xml().as_bytes().to_vec();
                 t.ev(json!({"ev":"r_xml","res":ok(jbytes(&x))}));
@@ -571,6 +595,34 @@ pub fn run_reader_dev(dev: &Dev, ops: &[Value], ctx: &ReadCtx, t: &mut TraceOut)
             _ => {}
         }
     }
+}
+
+/// Read files produced by the independent encoder: each input line is {"name", "scene", "bytes"}.
+/// Emits reset, s_scene, final and the reader events.
+pub fn read_cases(cases: &str, out: &str) -> std::io::Result<()> {
+    use std::io::{BufRead, Write};
+    let mut t = TraceOut::create(out)?;
+    let f = std::io::BufReader::new(std::fs::File::open(cases)?);
+    for (i, line) in f.lines().enumerate() {
+        let line = line?;
+        if line.trim().is_empty() {
+            continue;
+        }
+        let c: Value = serde_json::from_str(&line).expect("case json");
+        let img: Vec<u8> = c["bytes"].as_array().unwrap().iter().map(|x| x.as_u64().unwrap() as u8).collect();
+        t.ev(json!({"ev":"reset","run":i,"name":c["name"]}));
+        t.ev(json!({"ev":"s_scene","scene":c["scene"]}));
+        t.ev(json!({"ev":"final","bytes":c["bytes"]}));
+        let n = c["scene"]["pcs"].as_array().map(|a| a.len()).unwrap_or(0);
+        let mut ops = vec![json!({"op":"report"})];
+        for k in 0..n {
+            ops.push(json!({"op":"raw","pc":k}));
+            ops.push(json!({"op":"simple_count","pc":k}));
+        }
+        ops.push(json!({"op":"xml"}));
+        run_reader(&img, &ops, &ReadCtx { direct_blobs: vec![] }, &mut t);
+    }
+    t.f.flush()
 }
 
 /// Run a list of programs (NDJSON, one program per line): write, snapshot, read back.
